@@ -95,6 +95,14 @@ ReportedIsWritten == Done => \A c \in cards : Eff(c[1]) = c[2]
 F4(k) == sheet0[2][k].root /\ sheet0[2][k].col[1] = "lit"
 F5(k) == sheet0[2][k].col[1] = "varfb"
 UsesVar(k, v) == sheet0[2][k].col[1] = "var" /\ sheet0[2][k].col[2] = v
-F6(k) == \E v \in DOMAIN vdef : UsesVar(k, v) /\ \E k2 \in 1..Len(rules) : k2 # k /\ UsesVar(k2, v) /\ \E c \in cards : c[1] = k2
+\* custom properties on the resolution chain of rule k's text colour (in the INPUT stylesheet)
+RECURSIVE ChainOf(_, _)
+ChainOf(e, seen) ==
+   IF e[1] \in {"var", "varfb"} /\ e[2] \notin seen
+   THEN {e[2]} \cup (IF e[2] \in DOMAIN sheet0[1] /\ sheet0[1][e[2]][1] = "var" THEN ChainOf(sheet0[1][e[2]], seen \cup {e[2]}) ELSE {})
+   ELSE {}
+\* F6: a LATER rule directly references a custom property on rule k's chain (and so may re-tune it after k was reported).
+\* The last rule that uses a property is not in the class: nothing changes under it afterwards.
+F6(k) == \E k2 \in (k+1)..Len(rules) : \E v \in ChainOf(sheet0[2][k].col, {}) : UsesVar(k2, v)
 ReportedIsWrittenModuloKnown == Done => \A c \in cards : Eff(c[1]) = c[2] \/ F4(c[1]) \/ F5(c[1]) \/ F6(c[1])
 ====
